@@ -84,6 +84,9 @@ pub enum Stream {
 	/// the listener turns its head between two orientations given by quaternions of either sign
 	/// (q and -q are the same rotation) while the emitter stays on its right
 	Turn { a_deg: f32, target: u8, dur_chunks: usize, ibs: usize },
+	/// the listener glides away from (or towards) the emitter over several internal buffers: the
+	/// level changes smoothly, frame by frame, not in steps at the buffer boundaries
+	Glide { ibs: usize, from: f32, to: f32, chunks: usize },
 	/// listener, spatial track and sound added while the audio thread runs (c15_sched.rs)
 	Sched(super::c15_sched::SchedCase),
 	Nested { a: [f32; 3], b: [f32; 3], e1: [f32; 3], e2: [f32; 3], drop_a: Option<usize>, drop_b: Option<usize>, callbacks: usize, ibs: usize, mid_plain: bool },
@@ -106,6 +109,13 @@ fn gen_case(seed: u64, index: u64, tier: Tier) -> Case {
 	let v3 = |rng: &mut Rng, r: f64| -> [f32; 3] { [rng.frange(-r, r) as f32, rng.frange(-r, r) as f32, rng.frange(-r, r) as f32] };
 	let stream = if index % 24 == 17 {
 		Stream::Sched(super::c15_sched::gen(&mut rng))
+	} else if index % 24 == 23 {
+		Stream::Glide {
+			ibs: *rng.pick(&[64usize, 250, 512]),
+			from: rng.frange(0.0, 8.0) as f32,
+			to: rng.frange(20.0, 45.0) as f32,
+			chunks: rng.urange(2, 6),
+		}
 	} else if index % 12 == 11 {
 		Stream::Turn {
 			a_deg: rng.frange(1.0, 35.0) as f32,
@@ -1028,12 +1038,90 @@ fn run_turn(a_deg: f32, target: u8, dur_chunks: usize, ibs: usize, res: &mut Cas
 	drop((t, l, m));
 }
 
+fn run_glide(ibs: usize, from: f32, to: f32, chunks: usize, res: &mut CaseResult, trace: &mut Hasher64, beh: &mut Hasher64) {
+	let Some(mut m) = manager(ibs) else { return };
+	let device = m.backend_mut().device.clone();
+	let swap = (from as u32) % 2 == 1; // half of the cases approach instead of receding
+	let (z0, z1) = if swap { (to, from) } else { (from, to) };
+	let built = monitor::catch(move || {
+		let l = m.add_listener(Vec3::new(0.0, 0.0, z0), Quat::IDENTITY).unwrap();
+		let mut t = m
+			.add_spatial_sub_track(
+				&l,
+				Vec3::new(0.0, 0.0, -2.0),
+				SpatialTrackBuilder::new().distances((1.0, 50.0)).attenuation_function(Some(kira::Easing::Linear)).spatialization_strength(0.0),
+			)
+			.unwrap();
+		t.play(dc(0.5, 0.5)).unwrap();
+		(m, l, t)
+	});
+	let Ok((m, mut l, t)) = built else { return };
+	let mut out = Vec::new();
+	let mut gains: Vec<f32> = vec![];
+	for cb in 0..(chunks + 4) {
+		if cb == 2 {
+			l.set_position(
+				Vec3::new(0.0, 0.0, z1),
+				Tween {
+					duration: std::time::Duration::from_secs_f64(chunks as f64 * ibs as f64 / 8000.0),
+					..Default::default()
+				},
+			);
+		}
+		let rep = device.callback(ibs, 2, &mut out);
+		if let Some(p) = rep.panic {
+			res.fail(Violation::new("finite", format!("audio-panic: {}", panic_signature(&p)), format!("callback {cb}: {p}")));
+			return;
+		}
+		if cb >= 1 {
+			for i in 0..ibs {
+				trace.f32(out[2 * i]);
+				gains.push(out[2 * i]);
+			}
+		}
+	}
+	// steps across internal-buffer boundaries are no larger than the steps inside the buffers
+	let (mut inside, mut across, mut at) = (0.0f32, 0.0f32, 0usize);
+	for i in 0..gains.len().saturating_sub(1) {
+		let step = (gains[i + 1] - gains[i]).abs();
+		if (i + 1) % ibs == 0 {
+			if step > across {
+				across = step;
+				at = i + 1;
+			}
+		} else {
+			inside = inside.max(step);
+		}
+	}
+	let moved = gains.iter().cloned().fold(f32::MIN, f32::max) - gains.iter().cloned().fold(f32::MAX, f32::min);
+	if moved > 0.05 && across > 4.0 * inside + 1e-5 {
+		res.fail(Violation::new(
+			"geometry",
+			"level-steps-at-buffer-boundaries",
+			format!(
+				"the listener glides from z = {z0} to z = {z1} over {chunks} internal buffers of {ibs} frames (emitter at z = -2, linear roll-off 1..50): the level changes by {across} across a buffer boundary (frame {at}) but by at most {inside} from frame to frame inside the buffers"
+			),
+		));
+		return;
+	}
+	res.hit("glides_checked");
+	res.nontrivial = true;
+	res.callbacks = (chunks + 4) as u64;
+	res.hit("type.glide");
+	beh.u64(ibs as u64 * 8 + chunks as u64);
+	drop((t, l, m));
+}
+
 pub fn run_case(case: &Case) -> CaseResult {
 	let mut res = CaseResult::default();
 	let mut trace = Hasher64::new();
 	let mut beh = Hasher64::new();
 	match &case.stream {
 		Stream::Sched(sc) => return super::c15_sched::run(sc),
+		Stream::Glide { ibs, from, to, chunks } => {
+			run_glide(*ibs, *from, *to, *chunks, &mut res, &mut trace, &mut beh);
+			beh.u64(78);
+		}
 		Stream::Turn { a_deg, target, dur_chunks, ibs } => {
 			run_turn(*a_deg, *target, *dur_chunks, *ibs, &mut res, &mut trace, &mut beh);
 			beh.u64(77);
@@ -1065,7 +1153,7 @@ impl Check for C15 {
 		CheckInfo {
 			id: "C15",
 			level: "exploration",
-			rule: "five streams. sched (1/24): a gameplay task adds a listener, a spatial track bound to it (optionally nested) and a sound while an audio task runs callbacks under seeded random schedules - the track must be audible afterwards, and the first frame ever heard of the sound (a ramp) is its first frame: a track that ran without its listener consumes the sound in silence; turn (1/12): the listener turns between two yaw angles given by quaternions of either sign (q / -q), instantly or over a few internal buffers, with the emitter on its right: every frame favours the right ear - or turns about on the spot: the right ear before, the left ear after; nested (1/6): a spatial track (listener B) inside - directly or through a plain track - a spatial track (listener A) with a plain track below it, each with a FromListenerDistance probe, either listener dropped at a seeded callback; history (1/6): seeded history over {add listener (the first one gets a spatial track, optionally with a nested non-spatial child, each with a FromListenerDistance probe parameter and a DC sound), drop the listener, tween the listener position, schedule a jump of the listener for later and cancel it a callback afterwards by telling it to stay where it is, tween the emitter position, stop the sound with a fade (it must reach Stopped with or without a listener), callback} at a seeded internal buffer size, 30% on a pass-through track (no attenuation function, spatialization strength 0: silent without a listener like any other spatial track), 40% with a probe effect that adds a signal of its own (which must not get out without a listener either) - simulated on the device with a per-chunk reference of both positions; geometry (2/3): generated listener pose, emitter position, distance range (proper, equal, inverted, zero-based), attenuation curve, strength, edge classes (listener and emitter coincident; emitter exactly on one of the listener's ears; the same orientation given as a quaternion that is not of unit length), rendered through the manager and related to a second rendering (farther along the same ray, mirrored, rigidly moved, stereo input, the same scene with a linear roll-off) - plain input generation evaluated as cross-run invariants; non-trivial = every case renders; distinct = hash of the outputs / of the per-callback (listener present, chunks) sequence",
+			rule: "six streams. glide (1/24): the listener glides away from or towards the emitter over a few large internal buffers - the level changes from frame to frame, not in steps at the buffer boundaries; sched (1/24): a gameplay task adds a listener, a spatial track bound to it (optionally nested) and a sound while an audio task runs callbacks under seeded random schedules - the track must be audible afterwards, and the first frame ever heard of the sound (a ramp) is its first frame: a track that ran without its listener consumes the sound in silence; turn (1/12): the listener turns between two yaw angles given by quaternions of either sign (q / -q), instantly or over a few internal buffers, with the emitter on its right: every frame favours the right ear - or turns about on the spot: the right ear before, the left ear after; nested (1/6): a spatial track (listener B) inside - directly or through a plain track - a spatial track (listener A) with a plain track below it, each with a FromListenerDistance probe, either listener dropped at a seeded callback; history (1/6): seeded history over {add listener (the first one gets a spatial track, optionally with a nested non-spatial child, each with a FromListenerDistance probe parameter and a DC sound), drop the listener, tween the listener position, schedule a jump of the listener for later and cancel it a callback afterwards by telling it to stay where it is, tween the emitter position, stop the sound with a fade (it must reach Stopped with or without a listener), callback} at a seeded internal buffer size, 30% on a pass-through track (no attenuation function, spatialization strength 0: silent without a listener like any other spatial track), 40% with a probe effect that adds a signal of its own (which must not get out without a listener either) - simulated on the device with a per-chunk reference of both positions; geometry (2/3): generated listener pose, emitter position, distance range (proper, equal, inverted, zero-based), attenuation curve, strength, edge classes (listener and emitter coincident; emitter exactly on one of the listener's ears; the same orientation given as a quaternion that is not of unit length), rendered through the manager and related to a second rendering (farther along the same ray, mirrored, rigidly moved, stereo input, the same scene with a linear roll-off) - plain input generation evaluated as cross-run invariants; non-trivial = every case renders; distinct = hash of the outputs / of the per-callback (listener present, chunks) sequence",
 			assumptions: vec![
 				"the geometric relations (monotonicity, ear gains, mirror, rigid motion, stereo pass-through) are input-generation checks, not schedule- or fault-dependent; they are included because the same harness renders them, and are stated as such".into(),
 				"tolerances: 1e-4 on gains, 2e-3 / 3e-3 for mirrored / moved scenes (f32 quaternion arithmetic), rigid-motion comparison skipped within 1e-3 of a distance limit".into(),
